@@ -9,7 +9,9 @@ R1  kind preservation: ``async def`` without ``yield`` for coroutines, ``def`` w
 R2  the value that is checked and handed back is the value the call produced (awaited for
     coroutines; the generator *object* for generators, which is then delegated to);
 R3  the hand-written ``async yield from`` forwards values, exceptions and closure the way
-    PEP 380 prescribes (dataflow facts on the template).
+    PEP 380 prescribes: the forwarding code of every generated wrapper is interpreted by the
+    analyser's own protocol evaluator (sa/agenproto.py) against every caller script × inner
+    generator script up to a bound and compared with the reference semantics.
 """
 from __future__ import annotations
 
@@ -40,11 +42,13 @@ def run(ctx):
     ctx.rule('C08.R2', 'coroutine: the call is awaited, the awaited value is bound to the root pith, checked and '
              'returned; generator: the generator object is bound (not awaited, not iterated), checked, then '
              'delegated to with `return (yield from …)`; async generator: likewise, then forwarded')
-    ctx.rule('C08.R3', 'async yield from: the value sent into the wrapper flows to inner.asend when it is not None '
-             'and to anext(inner) otherwise; an exception thrown in flows to inner.athrow; GeneratorExit is '
-             'caught before BaseException, awaits inner.aclose() and re-raises; StopAsyncIteration is caught only '
-             'around the forwarding awaits (never around the yield) and ends the wrapper; the value yielded is '
-             'the last value obtained from the inner generator')
+    ctx.rule('C08.R3', 'async yield from, decided by interpreting the forwarding code of every generated async-generator '
+             'wrapper (sa/agenproto.py: the analyser\'s own evaluator; the inner generator is a scripted abstract object '
+             'that logs what is done to it) against every caller script over {anext, asend(v) truthy / falsy, '
+             'athrow(Exception / StopAsyncIteration / BaseException / GeneratorExit), aclose} × every inner script over '
+             '{yield, finish, raise} up to 4 operations (5 in the thorough tier): every caller operation reaches the '
+             'inner generator as the same operation (asend(None) ≡ anext), the caller observes exactly what the inner '
+             'generator answers, closure closes the inner generator and propagates GeneratorExit')
     agg = {}
 
     def note(rule, key, ok, detail, where):
@@ -98,7 +102,7 @@ def run(ctx):
             note('C08.R2', 'agen:call-not-awaited', not awaited, f'{desc}: the async generator call is awaited', DECOR)
             ok = isinstance(st, ast.Assign) and dotted(st.targets[0]) == PITH and st.value is call
             note('C08.R2', 'agen:object-bound', ok, f'{desc}: `{norm(st)[:80]}`', DECOR)
-            for key, good, detail in _agen_forwarding(facts.fn, PITH):
+            for key, good, detail in _agen_protocol(ctx, facts, PITH):
                 note('C08.R3', key, good, f'{desc}: {detail}', TEMPL)
         else:
             note('C08.R2', 'sync:call-not-awaited', not awaited and not delegated, f'{desc}: {norm(st)[:80]}', DECOR)
@@ -117,91 +121,71 @@ def run(ctx):
     ctx.floor('C08.R3', n_agen, 8, 'async-generator wrappers')
 
 
-def _agen_forwarding(fn, inner: str):
-    """PEP 380 obligations transposed to the async-generator forwarding loop."""
+_PROTO_CACHE = {}
+
+
+def _agen_protocol(ctx, facts, inner: str):
+    """R3 by interpretation (sa/agenproto.py): the forwarding code of the generated async-generator wrapper, run by the
+    analyser's own evaluator against every caller script × inner-generator script up to 4 operations (5 in the
+    thorough tier), compared with PEP 380 transposed to asynchronous generators."""
+    from sa import agenproto
+    from sa.repo import AnalysisError
+    fn = facts.fn
+    call = facts.calls_through[0]
+    st = _stmt_of(call)
+    if st not in fn.body:
+        return [('agen:call-through-at-top-level', False, 'the call of the wrappee is nested in another statement')]
+    idx = fn.body.index(st)
+    tail = '\n'.join(ast.unparse(x) for x in fn.body[idx + 1:])
+    depth = 5 if ctx.tier == 'thorough' else 4
+    key = (tail, depth)
+    if key not in _PROTO_CACHE:
+        try:
+            _PROTO_CACHE[key] = agenproto.explore(fn, inner, idx + 1, depth=depth)
+        except agenproto.ProtoAbort as ex:
+            raise AnalysisError(f'cannot interpret the async-generator forwarding code: {ex}')
+    n, bad = _PROTO_CACHE[key]
     out = []
-    yields = [y for y in walk_shallow(fn) if isinstance(y, ast.Yield)]
-    if len(yields) != 1:
-        return [('agen:one-yield', False, f'{len(yields)} yield expressions')]
-    y = yields[0]
-    out.append(('agen:one-yield', True, ''))
-    yst = _stmt_of(y)
-    sent = dotted(yst.targets[0]) if isinstance(yst, ast.Assign) and yst.value is y else None
-    yielded = dotted(y.value) if y.value is not None else None
-    out.append(('agen:yield-result-captured', sent is not None and yielded is not None,
-                f'yield statement `{norm(yst)[:80]}`'))
-    # the try whose body contains the yield
-    t = yst._parent
-    while t is not None and not (isinstance(t, ast.Try) and yst in t.body):
-        t = getattr(t, '_parent', None)
-    if t is None:
-        return out + [('agen:yield-inside-try', False, 'the yield is not directly inside a try body')]
-    hnames = [dotted(h.type) if h.type is not None else None for h in t.handlers]
-    out.append(('agen:no-StopAsyncIteration-around-yield', 'StopAsyncIteration' not in hnames and None not in hnames,
-                f'handlers around the yield: {hnames}'))
-    ge = hnames.index('GeneratorExit') if 'GeneratorExit' in hnames else -1
-    be = hnames.index('BaseException') if 'BaseException' in hnames else -1
-    out.append(('agen:GeneratorExit-before-BaseException', 0 <= ge < be, f'handlers {hnames}'))
-    if ge >= 0:
-        h = t.handlers[ge]
-        closes = any(isinstance(x, ast.Await) and isinstance(x.value, ast.Call) and dotted(x.value.func) == f'{inner}.aclose'
-                     for x in ast.walk(h))
-        reraises = bool(h.body) and isinstance(h.body[-1], ast.Raise) and h.body[-1].exc is None
-        out.append(('agen:close-propagated-and-reraised', closes and reraises,
-                    f'awaits {inner}.aclose(): {closes}; ends with bare raise: {reraises}'))
-    if be >= 0:
-        h = t.handlers[be]
-        exc = h.name
-        thr = [x for x in ast.walk(h) if isinstance(x, ast.Await) and isinstance(x.value, ast.Call)
-               and dotted(x.value.func) == f'{inner}.athrow']
-        ok = bool(exc) and len(thr) == 1 and len(thr[0].value.args) == 1 and dotted(thr[0].value.args[0]) == exc
-        st = _stmt_of(thr[0]) if thr else None
-        ok2 = isinstance(st, ast.Assign) and dotted(st.targets[0]) == yielded
-        out.append(('agen:exception-forwarded-to-athrow', ok and ok2,
-                    f'handler binds {exc}; athrow statement `{norm(st)[:100] if st else None}`'))
-        out.append(('agen:athrow-guards-StopAsyncIteration', bool(thr) and _guarded_by_stop(thr[0], h),
-                    'athrow is not inside try/except StopAsyncIteration: return'))
-    # else branch: asend / anext
-    sends = [x for x in ast.walk(t) if isinstance(x, ast.Await) and isinstance(x.value, ast.Call)
-             and dotted(x.value.func) == f'{inner}.asend']
-    nexts = [x for x in ast.walk(t) if isinstance(x, ast.Await) and isinstance(x.value, ast.Call)
-             and dotted(x.value.func) == 'anext' and x.value.args and dotted(x.value.args[0]) == inner]
-    ok = len(sends) == 1 and len(sends[0].value.args) == 1 and dotted(sends[0].value.args[0]) == sent
-    out.append(('agen:sent-value-forwarded-to-asend', ok, f'{len(sends)} asend calls; argument '
-                f'{norm(sends[0].value.args[0]) if sends and sends[0].value.args else None}, sent variable {sent}'))
-    if sends and nexts:
-        s_st, n_st = _stmt_of(sends[0]), _stmt_of(nexts[0])
-        branch = s_st._parent
-        cond_ok = isinstance(branch, ast.If) and norm(branch.test) == f'{sent} is None' \
-            and n_st in branch.body and s_st in branch.orelse
-        out.append(('agen:asend-iff-sent-not-None', cond_ok,
-                    f'branch `{norm(branch.test) if isinstance(branch, ast.If) else None}`: anext in body '
-                    f'{isinstance(branch, ast.If) and n_st in branch.body}, asend in else '
-                    f'{isinstance(branch, ast.If) and s_st in branch.orelse}'))
-        both = all(isinstance(s, ast.Assign) and dotted(s.targets[0]) == yielded for s in (s_st, n_st))
-        out.append(('agen:yielded-value-is-latest-from-inner', both,
-                    f'asend / anext results are bound to {yielded}: {both}'))
-        out.append(('agen:forwarding-awaits-guard-StopAsyncIteration',
-                    _guarded_by_stop(sends[0], t) and _guarded_by_stop(nexts[0], t),
-                    'asend / anext are not inside try/except StopAsyncIteration: return'))
-    else:
-        out.append(('agen:asend-iff-sent-not-None', False, f'{len(sends)} asend, {len(nexts)} anext awaits in the loop'))
-    # priming anext before the loop
-    prim = [x for x in walk_shallow(fn) if isinstance(x, ast.Await) and isinstance(x.value, ast.Call)
-            and dotted(x.value.func) == 'anext' and x not in nexts]
-    ok = len(prim) == 1 and isinstance(_stmt_of(prim[0]), ast.Assign) and dotted(_stmt_of(prim[0]).targets[0]) == yielded
-    out.append(('agen:primed-before-loop', ok and _guarded_by_stop(prim[0], fn) if prim else False,
-                f'{len(prim)} priming anext awaits'))
+    by = {}
+    for ops, script, got, exp in bad:
+        by.setdefault(_op_key(ops, got, exp), (ops, script, got, exp))
+    for k in _ALL_KEYS:
+        w = by.get(k)
+        out.append((f'agen:protocol:{k}', w is None, '' if w is None else _describe(*w)))
+    for k, w in by.items():
+        if k not in _ALL_KEYS:
+            out.append((f'agen:protocol:{k}', False, _describe(*w)))
+    out.append(('agen:protocol:scenarios-explored', n >= 1000, f'{n} scenarios'))
     return out
 
 
-def _guarded_by_stop(node, stop_at) -> bool:
-    """``node`` is in the body of a ``try`` with an ``except StopAsyncIteration: return`` handler."""
-    child, p = node, getattr(node, '_parent', None)
-    while p is not None and p is not stop_at:
-        if isinstance(p, ast.Try) and any(child is s for s in p.body):
-            for h in p.handlers:
-                if dotted(h.type) == 'StopAsyncIteration' and h.body and isinstance(h.body[-1], ast.Return):
-                    return True
-        child, p = p, getattr(p, '_parent', None)
-    return False
+_ALL_KEYS = ['priming', 'anext', 'asend', 'athrow:UserError', 'athrow:StopAsyncIteration', 'athrow:KeyboardInterrupt',
+             'athrow:GeneratorExit', 'aclose']
+
+
+def _op_key(ops, got, exp):
+    """The caller operation at which the observed trace first departs from the reference."""
+    g, e = got[0], exp[0]
+    i = 0
+    while i < len(g) and i < len(e) and g[i] == e[i]:
+        i += 1
+    if i >= len(g) and i >= len(e):
+        # same results, different operations performed on the inner generator: attribute to the first differing one
+        gl, el = got[1], exp[1]
+        j = 0
+        while j < len(gl) and j < len(el) and gl[j] == el[j]:
+            j += 1
+        i = min(j, len(ops) - 1)
+    i = min(i, len(ops) - 1)
+    if i == 0:
+        return 'priming'
+    op = ops[i]
+    return op[0] if op[0] in ('anext', 'asend', 'aclose') else f'athrow:{op[1]}'
+
+
+def _describe(ops, script, got, exp):
+    def o(x):
+        return x[0] + (f'({x[1]})' if len(x) > 1 else '()')
+    return (f'caller: {", ".join(o(x) for x in ops)}; inner generator answers: {", ".join(o(x) for x in script)} — '
+            f'the wrapper {"; ".join(o(x) for x in got[0])} after performing [{", ".join(o(x) for x in got[1])}] on the '
+            f'inner generator; async-yield-from semantics: {"; ".join(o(x) for x in exp[0])} after [{", ".join(o(x) for x in exp[1])}]')
